@@ -33,7 +33,12 @@ RULE = ('one case = one content item tree (depth <= 3) of a value type drawn uni
         'copy and from DICOM bytes (explicit and implicit VR), read a second time after the values it handed out were edited in place (built and parsed items, then written again), and parsed in damaged form (required attribute removed, '
         'value type swapped / unknown / missing, wrong class, child relationship removed).  Non-trivial = accepted '
         'tree parsed back with all values compared; distinct by (value type, graphic type, counts, option pattern, '
-        'depth, children types)')
+        'depth, children types).  Round 2: every argument is passed in a spelling drawn for it (enum member / string, str / UID classes, '
+        'python / pydicom value objects / DICOM strings, int / numpy / list / tuple / ndarray / scalar vs one-item sequence, omitted / None, two '
+        'TCOORD arguments at once); planted in addition: empty sequences, channel items that are not pairs, members of another enumeration, NUM '
+        'values of types the constructor does not take (model-only); each accepted tree is parsed through three more (source, entry point, copy '
+        'flag) routes incl. _from_dataset_derived and as the child of a parent data set, with the copy= promises checked, and is refused by each '
+        'of the 14 other classes; planes with collinear / repeated leading points, scaled x64 and /64; time offsets 0.0 / -0.0 / 0')
 ASSUMPTIONS = [
     'pydicom value conversions (DS, DA, TM, DT, PersonName, UID, FL/FD encoding) are the identity on the generated '
     'values: numbers are ints below 2^40 or floats stored exactly in FloatingPointValue, coordinates are multiples of '
@@ -41,11 +46,18 @@ ASSUMPTIONS = [
     'exact coplanarity over Q agrees with spatial.are_points_coplanar (SVD, tol 1e-5) on the generated points: '
     'coplanar sets are exactly coplanar dyadic points, non-coplanar sets deviate by >= 1/4',
     'concept names and codes are well-formed CodedConcepts (their equality and parsing are property C17)',
+    'frame numbers, segment numbers and sample positions are 1 .. 10^6 (segment numbers above 65535 / negative sample positions are accepted '
+    'by the constructors and fail only in pydicom\'s writer); coordinates stay inside the float32 range (beyond it they become inf)',
+    'dates / times given as strings are complete DA / TM / DT strings produced from a datetime (pydicom accepts e.g. the ISO form '
+    '2020-01-02T03:04:05 as DT and reads it as the year 2020: not generated); None / empty strings for values are outside the documented types',
+    'a NUM value of a type that is neither int nor float (numpy integer, numpy float32, Decimal, str) is refused by the library with TypeError: '
+    'compared with the model only, the oracle does not demand the refusal',
 ]
 MODELLED_NOT_VERIFIED = ['pydicom Dataset / DataElement value conversion and VM handling (single value vs MultiValue)',
                          'pydicom dcmwrite / dcmread', 'numpy flatten / reshape / array_equal',
                          'spatial.are_points_coplanar (SVD with tolerance)', 'valuerep.check_person_name',
-                         'CodedConcept.from_dataset (C17)']
+                         'CodedConcept.from_dataset (C17)', 'copy.deepcopy of a data set (copy=True); object identity under copy=False (oracle only)',
+                         'Enum(value) look-up by member or value; UID / PersonName / DA / TM / DT constructors of pydicom']
 
 VTS = ['CODE', 'COMPOSITE', 'CONTAINER', 'DATE', 'DATETIME', 'IMAGE', 'NUM', 'PNAME', 'SCOORD', 'SCOORD3D', 'TCOORD',
        'TEXT', 'TIME', 'UIDREF', 'WAVEFORM']
@@ -1544,7 +1556,7 @@ def _corpus():
 
 def run(ctx):
     import hd_env  # noqa: F401
-    cases = _corpus() + [gen_case(ctx, i) for i in range(ctx.n(600, 6000))]
+    cases = _corpus() + [gen_case(ctx, i) for i in range(ctx.n(520, 5200))]
     reqs, pend = [], []
     for case in cases:
         check_item(ctx, case, reqs, pend)
